@@ -598,12 +598,10 @@ type vfC20Cursor struct {
 	// alts, when set, lists the positions the last (successful, ambiguous)
 	// seek may have chosen; the next read decides.
 	alts []int
-	// unknown is set after a failed seek: the statement leaves the position
-	// open, the next read must return a whole stored line (or the end) and
-	// reading continues from there.
+	// unknown is set while the reader has never been positioned: the first
+	// read must return a whole stored line (or the end) and reading continues
+	// from there.
 	unknown bool
-	// before is the position before the failed seek.
-	before int
 }
 
 func vfC20NewCursor(filesOldToNew ...*vfC20File) (c *vfC20Cursor) {
@@ -633,16 +631,16 @@ func (c *vfC20Cursor) lookup(line string) (i int, ok bool) {
 	return i, ok
 }
 
-// seekFailed records a failed seek.
+// seekFailed records a seek that reported an error.  "Without mis-positioning
+// subsequent reads" is read as: a seek that fails leaves the reader where it
+// was, so the model does not move (a pending choice between permitted
+// positions stays pending).
 func (c *vfC20Cursor) seekFailed() {
-	switch {
-	case c.alts != nil:
-		c.before = -1
-	case !c.unknown:
-		c.before = c.pos
-	}
-	c.unknown, c.alts = true, nil
+	vfC20.Class("failed_seek_then_model_unmoved")
 }
+
+// setUnknown marks the reader as never positioned.
+func (c *vfC20Cursor) setUnknown() { c.unknown, c.alts = true, nil }
 
 // set places the cursor.
 func (c *vfC20Cursor) set(pos int) { c.pos, c.unknown, c.alts = pos, false, nil }
@@ -688,15 +686,7 @@ func (c *vfC20Cursor) observe(line string, err error) (complaint string) {
 	case c.unknown:
 		i, ok := c.lookup(line)
 		if !ok {
-			return fmt.Sprintf("after a failed seek the read returned something that is not a stored line: %s", vfC20Short(line))
-		}
-		switch {
-		case c.before < 0:
-			vfC20.Class("after_failed_seek:position_was_open")
-		case i == c.before:
-			vfC20.Class("after_failed_seek:position_kept")
-		default:
-			vfC20.Class("after_failed_seek:position_moved")
+			return fmt.Sprintf("the read of a never positioned reader returned something that is not a stored line: %s", vfC20Short(line))
 		}
 		c.set(i + 1)
 	case c.alts != nil:
